@@ -9,6 +9,7 @@
 From Hy Require Import lib.Lin model.C15_Stats proof.C15_Stats model.C15_Sites proof.C15_Sites.
 From Hy Require Import model.C15_FromC01 proof.C15_FromC01.
 From Hy Require Import model.C15_Pending proof.C15_Pending.
+From Hy Require Import model.C15_Copy proof.C15_Copy.
 From Coq Require Import ZArith Permutation.
 Local Open Scope N_scope.
 
@@ -395,3 +396,64 @@ Theorem C15_waiting_for_request_goroutines_refuted : forall secret,
   get 0 (online (logger (pw q))) = None /\ pend_at 0 (pend q) = 1.
 Proof. exact waits_refuted. Qed.
 Print Assumptions C15_waiting_for_request_goroutines_refuted.
+
+(* ---------- the refused report at EVERY position of a stream (model/C15_Copy.v) ----------
+   copy.go copyBufferLog as a loop over the Reads of one copy direction; a Read may return its bytes together with
+   io.EOF (the last data and the end of the stream in one call) or with a failure.  The site theorems above take the
+   relay one chunk at a time; these say the chunk can be ANY chunk of the stream. *)
+
+(* copyBufferLog returns errDisconnect iff some report was refused, the iterations before it having been passed (nothing
+   read, or a chunk accepted and written, and no Read error): whatever came with the refused bytes - nil, io.EOF, an
+   error - and whatever follows. *)
+Theorem C15_copy_refused_iff_disconnect : forall l,
+  fst (copy_loop l) = CDisconnect <->
+  exists pre r post, l = pre ++ r :: post /\ forallb passes pre = true /\
+                     (0 <? rs_n r) = true /\ rs_ok r = false.
+Proof. exact copy_refused_iff. Qed.
+Print Assumptions C15_copy_refused_iff_disconnect.
+
+(* Then the chunks before it were reported (accepted) and written, the refused chunk was reported and NOT written, and
+   nothing was read, reported or written after it; and no run of the loop lets a refusal go unanswered: the trace holds a
+   refused report iff the loop ends with errDisconnect (then exactly one). *)
+Theorem C15_copy_refused_forwards_nothing : forall pre r post,
+  forallb passes pre = true -> (0 <? rs_n r) = true -> rs_ok r = false ->
+  copy_loop (pre ++ r :: post) = (CDisconnect, pass_trace pre ++ [ALog (rs_n r) false]).
+Proof. exact copy_refused_at. Qed.
+Print Assumptions C15_copy_refused_forwards_nothing.
+
+Theorem C15_copy_every_refusal_answered : forall l,
+  refusals (snd (copy_loop l)) =
+  (if match fst (copy_loop l) with CDisconnect => true | _ => false end then 1 else 0)%nat.
+Proof. exact copy_trace_refusals. Qed.
+Print Assumptions C15_copy_every_refusal_answered.
+
+(* handleTCPRequest over the whole stream: it closes the QUIC connection iff the copy direction met a refusal (and its
+   result was the first to reach copyTwoWayEx's channel) - which is what the one-chunk site model says of a refused
+   report at a TCP site. *)
+Theorem C15_relay_refusal_closes_at_every_position : forall pre r post,
+  forallb passes pre = true -> (0 <? rs_n r) = true -> rs_ok r = false ->
+  tcp_relay_action (pre ++ r :: post) false = CloseConn /\
+  tcp_relay_action (pre ++ r :: post) false = site_action TcpUp false false /\
+  tcp_relay_action (pre ++ r :: post) false = site_action TcpDown false false.
+Proof. exact relay_refused_closes. Qed.
+Print Assumptions C15_relay_refusal_closes_at_every_position.
+
+Theorem C15_relay_closes_only_on_refusal : forall l other,
+  tcp_relay_action l other = CloseConn ->
+  other = false /\ exists pre r post, l = pre ++ r :: post /\ forallb passes pre = true /\
+                                      (0 <? rs_n r) = true /\ rs_ok r = false.
+Proof. exact relay_closes_only_refused. Qed.
+Print Assumptions C15_relay_closes_only_on_refusal.
+
+(* The order of the two tests in the loop body matters: in the variant that looks at the Read error first, a refusal on
+   the chunk that came with io.EOF uses the kick up (the refused report is in the trace) and the copy returns nil:
+   handleTCPRequest closes nothing.  The code, on the same stream, ends with errDisconnect. *)
+Theorem C15_copy_eof_first_refuted :
+  let l := [mkRs 100 RNil true true; mkRs 5 REOF false true] in
+  copy_loop l = (CDisconnect, [ALog 100 true; AWrite 100 true; ALog 5 false]) /\
+  copy_loop_eof_first l = (CNil, [ALog 100 true; AWrite 100 true; ALog 5 false]) /\
+  refusals (snd (copy_loop_eof_first l)) = 1%nat /\
+  handle_tcp_request (cperr_of (fst (copy_loop_eof_first l))) false = Forward /\
+  tcp_relay_action l false = CloseConn.
+Proof. exact eof_first_refuted. Qed.
+Print Assumptions C15_copy_eof_first_refuted.
